@@ -64,15 +64,27 @@ static int is_jnl(const char *p) {
     return n >= 4 && strcmp(p + n - 4, ".jnl") == 0;
 }
 
+static int cur_fd = -1;
+
 static void note(const char *what, long a, long res) {
     if (logfd < 0 || !armed) return;
-    char b[128];
-    int n = snprintf(b, sizeof b, "%ld %s %ld %ld\n", counter, what, a, res);
+    char b[160];
+    int n = snprintf(b, sizeof b, "%ld %s %ld %ld %d\n", counter, what, a, res, cur_fd);
     real_write(logfd, b, n);
 }
 
 static void track(int fd, const char *p) {
-    if (fd >= 0 && fd < 4096) jfd[fd] = is_jnl(p);
+    if (fd >= 0 && fd < 4096) {
+        jfd[fd] = is_jnl(p);
+        if (jfd[fd] && logfd >= 0) {
+            /* which file an fd refers to (logged whether armed or not; not a counted call) */
+            const char *base = strrchr(p, '/');
+            base = base ? base + 1 : p;
+            char b[200];
+            int n = snprintf(b, sizeof b, "0 open:%s %d 0 %d\n", base, fd, fd);
+            real_write(logfd, b, n);
+        }
+    }
 }
 
 int open(const char *p, int flags, ...) {
@@ -122,6 +134,7 @@ static int gate(void) {
 
 ssize_t write(int fd, const void *buf, size_t n) {
     init();
+    cur_fd = fd;
     if (fd < 0 || fd >= 4096 || !jfd[fd]) return real_write(fd, buf, n);
     if (gate()) {
         if (counter == fail_at && short_k > 0 && (size_t)short_k < n) {
@@ -139,6 +152,7 @@ ssize_t write(int fd, const void *buf, size_t n) {
 }
 int fsync(int fd) {
     init();
+    cur_fd = fd;
     if (fd < 0 || fd >= 4096 || !jfd[fd]) return real_fsync(fd);
     if (gate()) { note("fsync-fail", 0, -fail_errno); errno = (int)fail_errno; return -1; }
     int r = real_fsync(fd);
@@ -147,6 +161,7 @@ int fsync(int fd) {
 }
 int fdatasync(int fd) {
     init();
+    cur_fd = fd;
     if (fd < 0 || fd >= 4096 || !jfd[fd]) return real_fdatasync(fd);
     if (gate()) { note("fdatasync-fail", 0, -fail_errno); errno = (int)fail_errno; return -1; }
     int r = real_fdatasync(fd);
@@ -155,8 +170,9 @@ int fdatasync(int fd) {
 }
 int ftruncate(int fd, off_t len) {
     init();
+    cur_fd = fd;
     if (fd < 0 || fd >= 4096 || !jfd[fd]) return real_ftruncate(fd, len);
-    if (is_armed()) counter++;
+    if (is_armed()) { counter++; if (kill_at > 0 && counter == kill_at) _exit(137); }
     int r = real_ftruncate(fd, len);
     note("ftruncate", (long)len, r);
     return r;
